@@ -300,7 +300,9 @@ func (w *World) buildRows() map[string]*Row {
 	add(&Row{URL: "/osmosis.lockup.MsgSetRewardReceiverAddress", Kind: "object", Field: "lockID", Who: "lock owner",
 		Gen: lockCells("lockup.MsgSetRewardReceiverAddress", nil, func(w *World, k Lock, s string) sdk.Msg {
 			to := s // redirect the rewards to oneself
-			if s == k.Owner || s == "" || strings.HasPrefix(s, "mod:") || s == "pool" {
+			if s == k.Owner || s == "" || strings.HasPrefix(s, "mod:") || s == "pool" || s == k.Receiver {
+				// (the lock's current receiver redirects to a third party: "to oneself" would be refused as a no-op
+				// before any authorisation question arises)
 				to = otherThan(w, k.Owner, k.Receiver)
 			}
 			return &lockuptypes.MsgSetRewardReceiverAddress{Owner: w.Addr(s), LockID: k.ID, RewardReceiver: w.Addr(to)}
